@@ -31,10 +31,36 @@ def run(chk):
         [h, "--seed", str(chk.seed), "--shard", str(s), "--scenarios",
          str(scen), "--schedules", str(sched), "--maxframes", str(maxf),
          "--work", work], env=env, timeout=1800) for s in range(shards)]
-    for s, res in enumerate(vf.run_parallel(jobs)):
+    # systematic part: stateless depth-first enumeration of ALL interleavings with
+    # at most `bound` preemptions (context-bounded, as in CHESS) for small
+    # configurations "nt,frames,first-frame,nframes,ordered,bound"
+    if chk.tier == "quick":
+        specs, maxruns = ["2,1,0,-1,1,2", "2,1,0,-1,0,2", "2,2,0,-1,1,2", "2,2,0,-1,0,2",
+                          "2,3,0,-1,1,2", "2,3,0,-1,0,2", "3,2,0,-1,1,1", "3,2,0,-1,0,1",
+                          "2,2,2,1,1,2", "2,2,2,1,0,2", "2,3,0,2,0,2", "3,2,0,1,0,1",
+                          "2,2,0,0,1,2", "3,3,3,-1,0,1", "2,2,3,-1,1,2", "3,3,0,2,1,1"], 6000
+    else:
+        specs, maxruns = ["2,1,0,-1,1,3", "2,1,0,-1,0,3", "2,2,0,-1,1,3", "2,2,0,-1,0,3",
+                          "2,3,0,-1,1,3", "2,3,0,-1,0,3", "3,2,0,-1,1,2", "3,2,0,-1,0,2",
+                          "3,3,0,-1,1,2", "3,3,0,-1,0,2", "4,3,0,-1,1,1", "4,3,0,-1,0,1",
+                          "3,3,2,1,0,2", "3,3,0,2,0,2", "2,4,2,2,0,3", "3,2,0,1,0,3",
+                          "2,2,0,0,1,3", "4,2,2,-1,0,2", "2,2,3,-1,1,3", "4,4,0,3,1,1"], 150000
+    ejobs = [lambda k=k, sp=sp: vf.run_proc(
+        [h, "--enumerate", sp, "--work", work, "--shard", str(100 + k),
+         "--maxruns", str(maxruns)], env=env, timeout=3600) for k, sp in enumerate(specs)]
+    allres = vf.run_parallel(jobs + ejobs)
+    for s, res in enumerate(allres[:len(jobs)]):
         chk.ingest(res, "c05 controlled-scheduler shard %d" % s, prefix="sched_")
+    for sp, res in zip(specs, allres[len(jobs):]):
+        chk.ingest(res, "c05 enumeration %s" % sp, prefix="enum_")
     run_executables(chk, work)
-    chk.rule = ("(a) controlled scheduler: scenario = (frames in file, --nt 1..8, "
+    chk.extra["enumeration"] = (
+        "stateless DFS over the scheduler's decisions; 'complete' = every interleaving "
+        "with at most `bound` preemptions of that configuration was executed; "
+        "'truncated' = stopped at the run budget (a DFS prefix of that space)")
+    chk.rule = ("(0) systematic: context-bounded exhaustive enumeration of small "
+                "configurations (counters enum_*); "
+                "(a) controlled scheduler: scenario = (frames in file, --nt 1..8, "
                 "--first-frame, --nframes, ordered|unordered); each scenario is "
                 "run under seeded schedules (uniform, PCT, run-to-block, "
                 "starve-one). A schedule is non-trivial and distinct when >=2 "
